@@ -206,7 +206,7 @@ Inductive ev20 :=
 | EInitramfs.
 
 (* ghost state: gk/gb = revisions that booted and were marked successful (initially the installed ones);
-   ak/ab = revisions snapd asked to try since the last completed mark-successful *)
+   ak/ab = the revisions under trial (see fin_ak below) *)
 Record mach := {
   st : st20; ph : phase; pend : list write20; cur : option op20;
   gk : list rev; gb : list rev; ak : list rev; ab : list rev
@@ -227,13 +227,33 @@ Definition op_enabled (m : mach) (o : op20) : bool :=
   | _ => true
   end.
 
+(* The revisions under trial are REPLACED, not extended, by a completed request: a completed setNext for another
+   revision makes that revision the single one under trial, a completed setNext for the current revision, a
+   completed undo and a completed mark-successful end every trial of that snap type. While the writes of a request
+   are still in flight both the old trial and the new one can be what the next boot tries. *)
+Definition fin_ak (o : op20) (s : st20) (a : list rev) : list rev :=
+  match o with
+  | Mark | SetK _ true => []
+  | SetK r false => if N.eqb r (kl s) then [] else [r]
+  | SetB _ _ => a
+  end.
+Definition fin_ab (o : op20) (s : st20) (a : list rev) : list rev :=
+  match o with
+  | Mark | SetB _ true => []
+  | SetB r false => if N.eqb r (m_base (me s)) then [] else [r]
+  | SetK _ _ => a
+  end.
+
 Definition start_op (fx : bool) (m : mach) (o : op20) (k b : rev) : mach :=
   let ws := writes20 fx o (st m) in
-  {| st := st m; ph := ph m; pend := ws; cur := Some o;
+  let ak1 := match o with SetK r false => if N.eqb r (kl (st m)) then ak m else r :: ak m | _ => ak m end in
+  let ab1 := match o with SetB r false => if N.eqb r (m_base (me (st m))) then ab m else r :: ab m | _ => ab m end in
+  let none := match ws with [] => true | _ => false end in
+  {| st := st m; ph := ph m; pend := ws; cur := if none then None else Some o;
      gk := match o with Mark => k :: gk m | _ => gk m end;
      gb := match o with Mark => b :: gb m | _ => gb m end;
-     ak := match o with SetK r false => r :: ak m | _ => ak m end;
-     ab := match o with SetB r false => r :: ab m | _ => ab m end |}.
+     ak := if none then fin_ak o (st m) ak1 else ak1;
+     ab := if none then fin_ab o (st m) ab1 else ab1 |}.
 
 (* fx: the repaired setNext; g: power loss is assumed not to fall into the window *)
 Definition step20 (fx g : bool) (m : mach) (e : ev20) : mach :=
@@ -248,10 +268,11 @@ Definition step20 (fx g : bool) (m : mach) (e : ev20) : mach :=
       | [] => m
       | w :: ws =>
           let done := match ws with [] => true | _ => false end in
-          let fin := match cur m with Some Mark => done | _ => false end in
-          {| st := apply20 w (st m); ph := ph m; pend := ws; cur := if done then None else cur m;
+          let s' := apply20 w (st m) in
+          {| st := s'; ph := ph m; pend := ws; cur := if done then None else cur m;
              gk := gk m; gb := gb m;
-             ak := if fin then [] else ak m; ab := if fin then [] else ab m |}
+             ak := match cur m with Some o => if done then fin_ak o s' (ak m) else ak m | None => ak m end;
+             ab := match cur m with Some o => if done then fin_ab o s' (ab m) else ab m | None => ab m end |}
       end
   | EReset, _ => if g && in_window m then m else with_st m (st m) PhOff
   | EFirmware, PhOff =>
@@ -344,6 +365,13 @@ Definition op16_enabled (m : mach16) (o : op16) : bool :=
   | _ => true
   end.
 
+(* revisions under trial after a setNext (one atomic write, so the replacement is immediate): a request for the
+   current revision ends the trial -- unless snap_mode is already "" and the code writes nothing --, an undo ends
+   it, a request for another revision replaces it *)
+Definition trial16 (s : st16) (good r : rev) (nt : bool) (a : list rev) : list rev :=
+  if N.eqb good r then (if status_eqb (mode s) SDef then a else [])
+  else if nt then [] else [r].
+
 (* an operation is a single atomic write: a power loss falls before or after it *)
 Definition step16 (m : mach16) (e : ev16) : mach16 :=
   match e, ph16 m with
@@ -352,8 +380,14 @@ Definition step16 (m : mach16) (e : ev16) : mach16 :=
         {| s16 := match write16 o (s16 m) with Some s' => s' | None => s16 m end; ph16 := ph16 m;
            gk16 := match o with Mark16 => k :: gk16 m | _ => gk16 m end;
            gc16 := match o with Mark16 => c :: gc16 m | _ => gc16 m end;
-           ak16 := match o with Mark16 => [] | Set16 true r false => r :: ak16 m | _ => ak16 m end;
-           ac16 := match o with Mark16 => [] | Set16 false r false => r :: ac16 m | _ => ac16 m end |}
+           ak16 := match o with
+                   | Mark16 => []
+                   | Set16 true r nt => trial16 (s16 m) (sk (s16 m)) r nt (ak16 m)
+                   | _ => ak16 m end;
+           ac16 := match o with
+                   | Mark16 => []
+                   | Set16 false r nt => trial16 (s16 m) (sc (s16 m)) r nt (ac16 m)
+                   | _ => ac16 m end |}
       else m
   | E16Reset, _ =>
       {| s16 := s16 m; ph16 := P16Off; gk16 := gk16 m; gc16 := gc16 m; ak16 := ak16 m; ac16 := ac16 m |}
@@ -487,111 +521,109 @@ Record mon := { tk : list rev; tb : list rev; rk : list rev; rb : list rev;   (*
                 bk : option rev; bb : option rev;                           (* what the last boot mounted *)
                 trial_k : bool; trial_b : bool;                             (* last boot was a trial, nothing done since *)
                 want_boot : bool;                                           (* inside an ABoot without OBoot yet *)
+                lk : rev; lb : rev; lm : status;                            (* fall-back pointers / snap_mode last observed *)
                 bad : bool }.
 
 Definition nth_act {A} (acts : list A) (i : N) : option A := nth_error acts (N.to_nat i).
 
+(* all fields but the last observed pointers *)
+Definition mon_set (m : mon) (tk' tb' rk' rb' : list rev) (bk' bb' : option rev) (trk trb wb bad' : bool) : mon :=
+  {| tk := tk'; tb := tb'; rk := rk'; rb := rb'; bk := bk'; bb := bb'; trial_k := trk; trial_b := trb;
+     want_boot := wb; lk := lk m; lb := lb m; lm := lm m; bad := bad' |}.
+
 Definition mon_close (m : mon) : mon :=   (* an ABoot that ended without mounting anything is a failure *)
-  if want_boot m then {| tk := tk m; tb := tb m; rk := rk m; rb := rb m; bk := bk m; bb := bb m;
-                         trial_k := trial_k m; trial_b := trial_b m; want_boot := false; bad := true |} else m.
+  if want_boot m then mon_set m (tk m) (tb m) (rk m) (rb m) (bk m) (bb m) (trial_k m) (trial_b m) false true else m.
+
+(* revisions under trial after a request for revision r: replaced by a completed request (emptied by a request for
+   the current revision `good` or by an undo); a request cut by a power loss leaves the old and the new candidate *)
+Definition req (full nt : bool) (good r : rev) (old : list rev) : list rev :=
+  if full then (if nt then [] else if N.eqb r good then [] else [r])
+  else (if nt then old else if N.eqb r good then old else r :: old).
 
 Definition mon_item (acts : list act20) (m : mon) (it : item20) : mon :=
   match it with
   | OAct i =>
       let m := mon_close m in
       match nth_act acts i with
-      | Some (AOp Mark c) =>
-          (* marking makes what is running known-good; a completed mark ends all trials *)
+      | Some (AOp o c) =>
           let full := match c with None => true | _ => false end in
-          {| tk := match bk m with Some k => k :: tk m | None => tk m end;
-             tb := match bb m with Some b => b :: tb m | None => tb m end;
-             rk := if full then [] else rk m; rb := if full then [] else rb m;
-             bk := match c with None => bk m | _ => None end; bb := match c with None => bb m | _ => None end;
-             trial_k := false; trial_b := false; want_boot := false; bad := bad m |}
-      | Some (AOp (SetK r nt) c) =>
-          {| tk := tk m; tb := tb m; rk := if nt then rk m else r :: rk m; rb := rb m;
-             bk := match c with None => bk m | _ => None end; bb := match c with None => bb m | _ => None end;
-             trial_k := false; trial_b := false; want_boot := false; bad := bad m |}
-      | Some (AOp (SetB r nt) c) =>
-          {| tk := tk m; tb := tb m; rk := rk m; rb := if nt then rb m else r :: rb m;
-             bk := match c with None => bk m | _ => None end; bb := match c with None => bb m | _ => None end;
-             trial_k := false; trial_b := false; want_boot := false; bad := bad m |}
-      | Some AFw =>
-          {| tk := tk m; tb := tb m; rk := rk m; rb := rb m; bk := None; bb := None;
-             trial_k := trial_k m; trial_b := trial_b m; want_boot := false; bad := bad m |}
-      | Some ABoot =>
-          {| tk := tk m; tb := tb m; rk := rk m; rb := rb m; bk := None; bb := None;
-             trial_k := trial_k m; trial_b := trial_b m; want_boot := true; bad := bad m |}
+          let bk' := if full then bk m else None in
+          let bb' := if full then bb m else None in
+          match o with
+          | Mark =>
+              (* marking makes what is running known-good; a completed mark ends all trials *)
+              mon_set m (match bk m with Some k => k :: tk m | None => tk m end)
+                        (match bb m with Some b => b :: tb m | None => tb m end)
+                        (if full then [] else rk m) (if full then [] else rb m) bk' bb' false false false (bad m)
+          | SetK r nt => mon_set m (tk m) (tb m) (req full nt (lk m) r (rk m)) (rb m) bk' bb' false false false (bad m)
+          | SetB r nt => mon_set m (tk m) (tb m) (rk m) (req full nt (lb m) r (rb m)) bk' bb' false false false (bad m)
+          end
+      | Some AFw => mon_set m (tk m) (tb m) (rk m) (rb m) None None (trial_k m) (trial_b m) false (bad m)
+      | Some ABoot => mon_set m (tk m) (tb m) (rk m) (rb m) None None (trial_k m) (trial_b m) true (bad m)
       | None => m
       end
   | OS s =>
       (* the fallback pointers only ever name revisions that booted and were marked *)
       {| tk := tk m; tb := tb m; rk := rk m; rb := rb m; bk := bk m; bb := bb m;
          trial_k := trial_k m; trial_b := trial_b m; want_boot := want_boot m;
+         lk := kl s; lb := m_base (me s); lm := lm m;
          bad := bad m || negb (mem (kl s) (tk m)) || negb (mem (m_base (me s)) (tb m)) |}
   | OBoot k b =>
+      (* what is mounted is known-good or THE revision under trial *)
       let okk := mem k (tk m) || mem k (rk m) in
       let okb := mem b (tb m) || mem b (rb m) in
       (* a failed or interrupted trial boot is followed by a boot of known-good revisions *)
       let back_k := negb (trial_k m) || mem k (tk m) in
       let back_b := negb (trial_b m) || mem b (tb m) in
-      {| tk := tk m; tb := tb m; rk := rk m; rb := rb m; bk := Some k; bb := Some b;
-         trial_k := negb (mem k (tk m)); trial_b := negb (mem b (tb m)); want_boot := false;
-         bad := bad m || negb okk || negb okb || negb back_k || negb back_b |}
+      mon_set m (tk m) (tb m) (rk m) (rb m) (Some k) (Some b) (negb (mem k (tk m))) (negb (mem b (tb m))) false
+              (bad m || negb okk || negb okb || negb back_k || negb back_b)
   | OReboot => m
-  | ODead | OErr =>
-      {| tk := tk m; tb := tb m; rk := rk m; rb := rb m; bk := bk m; bb := bb m;
-         trial_k := trial_k m; trial_b := trial_b m; want_boot := false; bad := true |}
+  | ODead | OErr => mon_set m (tk m) (tb m) (rk m) (rb m) (bk m) (bb m) (trial_k m) (trial_b m) false true
   end.
 
-Definition monitor20 (k0 b0 : rev) (acts : list act20) (obs : list item20) : bool :=
-  bad (mon_close (fold_left (mon_item acts)
-       obs {| tk := [k0]; tb := [b0]; rk := []; rb := []; bk := None; bb := None;
-              trial_k := false; trial_b := false; want_boot := false; bad := false |})).
+Definition mon_init (k0 b0 : rev) : mon :=
+  {| tk := [k0]; tb := [b0]; rk := []; rb := []; bk := None; bb := None; trial_k := false; trial_b := false;
+     want_boot := false; lk := k0; lb := b0; lm := SDef; bad := false |}.
 
-(* UC16 monitor, same idea *)
+Definition monitor20 (k0 b0 : rev) (acts : list act20) (obs : list item20) : bool :=
+  bad (mon_close (fold_left (mon_item acts) obs (mon_init k0 b0))).
+
+(* UC16 monitor, same idea. A request for the current revision while the observed snap_mode is "" writes nothing and
+   leaves the trial set alone (what is left over from a failed trial is cleaned by the next mark). *)
+Definition req16 (md : status) (nt : bool) (good r : rev) (old : list rev) : list rev :=
+  if N.eqb good r then (if status_eqb md SDef then old else []) else if nt then [] else [r].
+
 Definition mon16_item (acts : list act16) (m : mon) (it : item16) : mon :=
   match it with
   | O16Act i =>
       match nth_act acts i with
       | Some (A16Op Mark16 false) =>
-          {| tk := match bk m with Some k => k :: tk m | None => tk m end;
-             tb := match bb m with Some b => b :: tb m | None => tb m end;
-             rk := []; rb := []; bk := bk m; bb := bb m;
-             trial_k := false; trial_b := false; want_boot := false; bad := bad m |}
+          mon_set m (match bk m with Some k => k :: tk m | None => tk m end)
+                    (match bb m with Some b => b :: tb m | None => tb m end) [] [] (bk m) (bb m) false false false (bad m)
       | Some (A16Op (Set16 kn r nt) false) =>
-          {| tk := tk m; tb := tb m;
-             rk := if kn && negb nt then r :: rk m else rk m; rb := if negb kn && negb nt then r :: rb m else rb m;
-             bk := bk m; bb := bb m; trial_k := false; trial_b := false; want_boot := false; bad := bad m |}
-      | Some (A16Op _ true) =>
-          {| tk := tk m; tb := tb m; rk := rk m; rb := rb m; bk := None; bb := None;
-             trial_k := trial_k m; trial_b := trial_b m; want_boot := false; bad := bad m |}
-      | Some A16Boot =>
-          {| tk := tk m; tb := tb m; rk := rk m; rb := rb m; bk := None; bb := None;
-             trial_k := trial_k m; trial_b := trial_b m; want_boot := true; bad := bad m |}
+          mon_set m (tk m) (tb m) (if kn then req16 (lm m) nt (lk m) r (rk m) else rk m)
+                    (if kn then rb m else req16 (lm m) nt (lb m) r (rb m)) (bk m) (bb m) false false false (bad m)
+      | Some (A16Op _ true) => mon_set m (tk m) (tb m) (rk m) (rb m) None None (trial_k m) (trial_b m) false (bad m)
+      | Some A16Boot => mon_set m (tk m) (tb m) (rk m) (rb m) None None (trial_k m) (trial_b m) true (bad m)
       | None => m
       end
   | O16S s =>
       {| tk := tk m; tb := tb m; rk := rk m; rb := rb m; bk := bk m; bb := bb m;
          trial_k := trial_k m; trial_b := trial_b m; want_boot := want_boot m;
+         lk := sk s; lb := sc s; lm := mode s;
          bad := bad m || negb (mem (sk s) (tk m)) || negb (mem (sc s) (tb m)) |}
   | O16Boot k b =>
       let okk := mem k (tk m) || mem k (rk m) in
       let okb := mem b (tb m) || mem b (rb m) in
       let back_k := negb (trial_k m) || mem k (tk m) in
       let back_b := negb (trial_b m) || mem b (tb m) in
-      {| tk := tk m; tb := tb m; rk := rk m; rb := rb m; bk := Some k; bb := Some b;
-         trial_k := negb (mem k (tk m)); trial_b := negb (mem b (tb m)); want_boot := false;
-         bad := bad m || negb okk || negb okb || negb back_k || negb back_b |}
-  | O16Err =>
-      {| tk := tk m; tb := tb m; rk := rk m; rb := rb m; bk := bk m; bb := bb m;
-         trial_k := trial_k m; trial_b := trial_b m; want_boot := false; bad := true |}
+      mon_set m (tk m) (tb m) (rk m) (rb m) (Some k) (Some b) (negb (mem k (tk m))) (negb (mem b (tb m))) false
+              (bad m || negb okk || negb okb || negb back_k || negb back_b)
+  | O16Err => mon_set m (tk m) (tb m) (rk m) (rb m) (bk m) (bb m) (trial_k m) (trial_b m) false true
   end.
 
 Definition monitor16 (k0 c0 : rev) (acts : list act16) (obs : list item16) : bool :=
-  bad (mon_close (fold_left (mon16_item acts)
-       obs {| tk := [k0]; tb := [c0]; rk := []; rb := []; bk := None; bb := None;
-              trial_k := false; trial_b := false; want_boot := false; bad := false |})).
+  bad (mon_close (fold_left (mon16_item acts) obs (mon_init k0 c0))).
 
 (* ---- cases *)
 Inductive case :=
